@@ -531,7 +531,7 @@ fn small_programs(max_len: usize) -> Vec<Vec<Stmt>> {
 }
 
 pub fn run(c: &Ctx) {
-    c.set_rule("exhaustive: slice(l,r) and drop(n) for all lengths 0..=8 and all indices in -10..=10 on five iterator sources (Vec::into_iter, Path::components, str::chars ASCII and multi-byte, a filtered Vec iterator whose size_hint over-estimates); first/first_result/last_result/single/some/consume for all lengths 0..=8 (plain and filtered sources); all strings <=3 (quick) / 4 (thorough) symbols over {a,F,f,0,é,ß,İ,space} plus casings of false/true/0 for size/to_bool/trim_suffix/Option::has; defer: every program of <=4 (quick) / 5 (thorough) statements over {defer,defer,log,return,panic,defer-whose-closure-panics,defer-whose-closure-uses-defer} plus nested-block compositions up to depth 3 and a defer! macro family; then seeded random sequences/strings/programs. Oracles: Vec slicing with the documented index normalisation, byte-level char count, str::strip_suffix, ==, longest-prefix, reverse-creation-order model under catch_unwind. Non-trivial = index pair with a negative or out-of-range index / string with a multi-byte char / program with a return or panic exit; distinct by case.");
+    c.set_rule("exhaustive: slice(l,r) and drop(n) for all lengths 0..=8 and all indices in -10..=10, plus the ends of the index type (isize::MIN/MAX and their neighbours) for lengths 0..=3, on five iterator sources (Vec::into_iter, Path::components, str::chars ASCII and multi-byte, a filtered Vec iterator whose size_hint over-estimates); first/first_result/last_result/single/some/consume for all lengths 0..=8 (plain and filtered sources); all strings <=3 (quick) / 4 (thorough) symbols over {a,F,f,0,é,ß,İ,space} plus casings of false/true/0 for size/to_bool/trim_suffix/Option::has; defer: every program of <=4 (quick) / 5 (thorough) statements over {defer,defer,log,return,panic,defer-whose-closure-panics,defer-whose-closure-uses-defer} plus nested-block compositions up to depth 3 and a defer! macro family; then seeded random sequences/strings/programs. Oracles: Vec slicing with the documented index normalisation, byte-level char count, str::strip_suffix, ==, longest-prefix, reverse-creation-order model under catch_unwind. Non-trivial = index pair with a negative or out-of-range index / string with a multi-byte char / program with a return or panic exit; distinct by case.");
     // --- iterators (exhaustive) -----------------------------------------------------------------
     let srcs = ["vec", "components", "chars", "chars-multibyte", "filter"];
     for src in srcs {
@@ -553,6 +553,25 @@ pub fn run(c: &Ctx) {
                     c.nontrivial(fp(&("drop", src, len, l)));
                 }
                 c.judge("drop", &json!([src, len, l]), check_drop(src, len, l));
+            }
+        }
+    }
+    // the ends of the index type ("for all indices ... none of these panics"; l stays at or above -len)
+    for src in srcs {
+        for len in 0..=3isize {
+            for l in [0, 1, -len, isize::MAX, isize::MAX - 1] {
+                for r in [isize::MIN, isize::MIN + 1, isize::MAX, isize::MAX - 1, -1, 0] {
+                    c.eval(1);
+                    c.nontrivial(fp(&("slice-extreme", src, len, l, r)));
+                    c.class("slice:extreme-index");
+                    mark("slice", &format!("[{:?},{},{},{}]", src, len, l, r));
+                    c.judge("slice", &json!([src, len, l, r]), check_slice(src, len, l, r));
+                }
+            }
+            for n in [isize::MIN, isize::MIN + 1, isize::MAX, isize::MAX - 1] {
+                c.eval(1);
+                c.class("drop:extreme-index");
+                c.judge("drop", &json!([src, len, n]), check_drop(src, len, n));
             }
         }
     }
